@@ -68,32 +68,34 @@ Record state := mkState {
   failed : bool;
   stopreq : bool;
   cycreported : bool;
-  trace : list obs
+  trace : list obs;
+  nfwd : nat
 }.
-Definition set_ts (s : state) (v : nat -> tstate) : state := mkState v (fin s) (ex s) (pk s) (asy s) (initq s) (ptasks s) (parsers s) (semi s) (sendq s) (actq s) (taken s) (building s) (finishing s) (completing s) (numPending s) (numActive s) (initdone s) (closed s) (exited s) (failed s) (stopreq s) (cycreported s) (trace s).
-Definition set_fin (s : state) (v : nat -> bool) : state := mkState (ts s) v (ex s) (pk s) (asy s) (initq s) (ptasks s) (parsers s) (semi s) (sendq s) (actq s) (taken s) (building s) (finishing s) (completing s) (numPending s) (numActive s) (initdone s) (closed s) (exited s) (failed s) (stopreq s) (cycreported s) (trace s).
-Definition set_ex (s : state) (v : nat -> bool) : state := mkState (ts s) (fin s) v (pk s) (asy s) (initq s) (ptasks s) (parsers s) (semi s) (sendq s) (actq s) (taken s) (building s) (finishing s) (completing s) (numPending s) (numActive s) (initdone s) (closed s) (exited s) (failed s) (stopreq s) (cycreported s) (trace s).
-Definition set_pk (s : state) (v : nat -> pstate) : state := mkState (ts s) (fin s) (ex s) v (asy s) (initq s) (ptasks s) (parsers s) (semi s) (sendq s) (actq s) (taken s) (building s) (finishing s) (completing s) (numPending s) (numActive s) (initdone s) (closed s) (exited s) (failed s) (stopreq s) (cycreported s) (trace s).
-Definition set_asy (s : state) (v : nat -> astate) : state := mkState (ts s) (fin s) (ex s) (pk s) v (initq s) (ptasks s) (parsers s) (semi s) (sendq s) (actq s) (taken s) (building s) (finishing s) (completing s) (numPending s) (numActive s) (initdone s) (closed s) (exited s) (failed s) (stopreq s) (cycreported s) (trace s).
-Definition set_initq (s : state) (v : list nat) : state := mkState (ts s) (fin s) (ex s) (pk s) (asy s) v (ptasks s) (parsers s) (semi s) (sendq s) (actq s) (taken s) (building s) (finishing s) (completing s) (numPending s) (numActive s) (initdone s) (closed s) (exited s) (failed s) (stopreq s) (cycreported s) (trace s).
-Definition set_ptasks (s : state) (v : list nat) : state := mkState (ts s) (fin s) (ex s) (pk s) (asy s) (initq s) v (parsers s) (semi s) (sendq s) (actq s) (taken s) (building s) (finishing s) (completing s) (numPending s) (numActive s) (initdone s) (closed s) (exited s) (failed s) (stopreq s) (cycreported s) (trace s).
-Definition set_parsers (s : state) (v : list nat) : state := mkState (ts s) (fin s) (ex s) (pk s) (asy s) (initq s) (ptasks s) v (semi s) (sendq s) (actq s) (taken s) (building s) (finishing s) (completing s) (numPending s) (numActive s) (initdone s) (closed s) (exited s) (failed s) (stopreq s) (cycreported s) (trace s).
-Definition set_semi (s : state) (v : list nat) : state := mkState (ts s) (fin s) (ex s) (pk s) (asy s) (initq s) (ptasks s) (parsers s) v (sendq s) (actq s) (taken s) (building s) (finishing s) (completing s) (numPending s) (numActive s) (initdone s) (closed s) (exited s) (failed s) (stopreq s) (cycreported s) (trace s).
-Definition set_sendq (s : state) (v : list nat) : state := mkState (ts s) (fin s) (ex s) (pk s) (asy s) (initq s) (ptasks s) (parsers s) (semi s) v (actq s) (taken s) (building s) (finishing s) (completing s) (numPending s) (numActive s) (initdone s) (closed s) (exited s) (failed s) (stopreq s) (cycreported s) (trace s).
-Definition set_actq (s : state) (v : list nat) : state := mkState (ts s) (fin s) (ex s) (pk s) (asy s) (initq s) (ptasks s) (parsers s) (semi s) (sendq s) v (taken s) (building s) (finishing s) (completing s) (numPending s) (numActive s) (initdone s) (closed s) (exited s) (failed s) (stopreq s) (cycreported s) (trace s).
-Definition set_taken (s : state) (v : list nat) : state := mkState (ts s) (fin s) (ex s) (pk s) (asy s) (initq s) (ptasks s) (parsers s) (semi s) (sendq s) (actq s) v (building s) (finishing s) (completing s) (numPending s) (numActive s) (initdone s) (closed s) (exited s) (failed s) (stopreq s) (cycreported s) (trace s).
-Definition set_building (s : state) (v : list nat) : state := mkState (ts s) (fin s) (ex s) (pk s) (asy s) (initq s) (ptasks s) (parsers s) (semi s) (sendq s) (actq s) (taken s) v (finishing s) (completing s) (numPending s) (numActive s) (initdone s) (closed s) (exited s) (failed s) (stopreq s) (cycreported s) (trace s).
-Definition set_finishing (s : state) (v : list nat) : state := mkState (ts s) (fin s) (ex s) (pk s) (asy s) (initq s) (ptasks s) (parsers s) (semi s) (sendq s) (actq s) (taken s) (building s) v (completing s) (numPending s) (numActive s) (initdone s) (closed s) (exited s) (failed s) (stopreq s) (cycreported s) (trace s).
-Definition set_completing (s : state) (v : list nat) : state := mkState (ts s) (fin s) (ex s) (pk s) (asy s) (initq s) (ptasks s) (parsers s) (semi s) (sendq s) (actq s) (taken s) (building s) (finishing s) v (numPending s) (numActive s) (initdone s) (closed s) (exited s) (failed s) (stopreq s) (cycreported s) (trace s).
-Definition set_numPending (s : state) (v : Z) : state := mkState (ts s) (fin s) (ex s) (pk s) (asy s) (initq s) (ptasks s) (parsers s) (semi s) (sendq s) (actq s) (taken s) (building s) (finishing s) (completing s) v (numActive s) (initdone s) (closed s) (exited s) (failed s) (stopreq s) (cycreported s) (trace s).
-Definition set_numActive (s : state) (v : Z) : state := mkState (ts s) (fin s) (ex s) (pk s) (asy s) (initq s) (ptasks s) (parsers s) (semi s) (sendq s) (actq s) (taken s) (building s) (finishing s) (completing s) (numPending s) v (initdone s) (closed s) (exited s) (failed s) (stopreq s) (cycreported s) (trace s).
-Definition set_initdone (s : state) (v : bool) : state := mkState (ts s) (fin s) (ex s) (pk s) (asy s) (initq s) (ptasks s) (parsers s) (semi s) (sendq s) (actq s) (taken s) (building s) (finishing s) (completing s) (numPending s) (numActive s) v (closed s) (exited s) (failed s) (stopreq s) (cycreported s) (trace s).
-Definition set_closed (s : state) (v : bool) : state := mkState (ts s) (fin s) (ex s) (pk s) (asy s) (initq s) (ptasks s) (parsers s) (semi s) (sendq s) (actq s) (taken s) (building s) (finishing s) (completing s) (numPending s) (numActive s) (initdone s) v (exited s) (failed s) (stopreq s) (cycreported s) (trace s).
-Definition set_exited (s : state) (v : bool) : state := mkState (ts s) (fin s) (ex s) (pk s) (asy s) (initq s) (ptasks s) (parsers s) (semi s) (sendq s) (actq s) (taken s) (building s) (finishing s) (completing s) (numPending s) (numActive s) (initdone s) (closed s) v (failed s) (stopreq s) (cycreported s) (trace s).
-Definition set_failed (s : state) (v : bool) : state := mkState (ts s) (fin s) (ex s) (pk s) (asy s) (initq s) (ptasks s) (parsers s) (semi s) (sendq s) (actq s) (taken s) (building s) (finishing s) (completing s) (numPending s) (numActive s) (initdone s) (closed s) (exited s) v (stopreq s) (cycreported s) (trace s).
-Definition set_stopreq (s : state) (v : bool) : state := mkState (ts s) (fin s) (ex s) (pk s) (asy s) (initq s) (ptasks s) (parsers s) (semi s) (sendq s) (actq s) (taken s) (building s) (finishing s) (completing s) (numPending s) (numActive s) (initdone s) (closed s) (exited s) (failed s) v (cycreported s) (trace s).
-Definition set_cycreported (s : state) (v : bool) : state := mkState (ts s) (fin s) (ex s) (pk s) (asy s) (initq s) (ptasks s) (parsers s) (semi s) (sendq s) (actq s) (taken s) (building s) (finishing s) (completing s) (numPending s) (numActive s) (initdone s) (closed s) (exited s) (failed s) (stopreq s) v (trace s).
-Definition set_trace (s : state) (v : list obs) : state := mkState (ts s) (fin s) (ex s) (pk s) (asy s) (initq s) (ptasks s) (parsers s) (semi s) (sendq s) (actq s) (taken s) (building s) (finishing s) (completing s) (numPending s) (numActive s) (initdone s) (closed s) (exited s) (failed s) (stopreq s) (cycreported s) v.
+Definition set_ts (s : state) (v : nat -> tstate) : state := mkState v (fin s) (ex s) (pk s) (asy s) (initq s) (ptasks s) (parsers s) (semi s) (sendq s) (actq s) (taken s) (building s) (finishing s) (completing s) (numPending s) (numActive s) (initdone s) (closed s) (exited s) (failed s) (stopreq s) (cycreported s) (trace s) (nfwd s).
+Definition set_fin (s : state) (v : nat -> bool) : state := mkState (ts s) v (ex s) (pk s) (asy s) (initq s) (ptasks s) (parsers s) (semi s) (sendq s) (actq s) (taken s) (building s) (finishing s) (completing s) (numPending s) (numActive s) (initdone s) (closed s) (exited s) (failed s) (stopreq s) (cycreported s) (trace s) (nfwd s).
+Definition set_ex (s : state) (v : nat -> bool) : state := mkState (ts s) (fin s) v (pk s) (asy s) (initq s) (ptasks s) (parsers s) (semi s) (sendq s) (actq s) (taken s) (building s) (finishing s) (completing s) (numPending s) (numActive s) (initdone s) (closed s) (exited s) (failed s) (stopreq s) (cycreported s) (trace s) (nfwd s).
+Definition set_pk (s : state) (v : nat -> pstate) : state := mkState (ts s) (fin s) (ex s) v (asy s) (initq s) (ptasks s) (parsers s) (semi s) (sendq s) (actq s) (taken s) (building s) (finishing s) (completing s) (numPending s) (numActive s) (initdone s) (closed s) (exited s) (failed s) (stopreq s) (cycreported s) (trace s) (nfwd s).
+Definition set_asy (s : state) (v : nat -> astate) : state := mkState (ts s) (fin s) (ex s) (pk s) v (initq s) (ptasks s) (parsers s) (semi s) (sendq s) (actq s) (taken s) (building s) (finishing s) (completing s) (numPending s) (numActive s) (initdone s) (closed s) (exited s) (failed s) (stopreq s) (cycreported s) (trace s) (nfwd s).
+Definition set_initq (s : state) (v : list nat) : state := mkState (ts s) (fin s) (ex s) (pk s) (asy s) v (ptasks s) (parsers s) (semi s) (sendq s) (actq s) (taken s) (building s) (finishing s) (completing s) (numPending s) (numActive s) (initdone s) (closed s) (exited s) (failed s) (stopreq s) (cycreported s) (trace s) (nfwd s).
+Definition set_ptasks (s : state) (v : list nat) : state := mkState (ts s) (fin s) (ex s) (pk s) (asy s) (initq s) v (parsers s) (semi s) (sendq s) (actq s) (taken s) (building s) (finishing s) (completing s) (numPending s) (numActive s) (initdone s) (closed s) (exited s) (failed s) (stopreq s) (cycreported s) (trace s) (nfwd s).
+Definition set_parsers (s : state) (v : list nat) : state := mkState (ts s) (fin s) (ex s) (pk s) (asy s) (initq s) (ptasks s) v (semi s) (sendq s) (actq s) (taken s) (building s) (finishing s) (completing s) (numPending s) (numActive s) (initdone s) (closed s) (exited s) (failed s) (stopreq s) (cycreported s) (trace s) (nfwd s).
+Definition set_semi (s : state) (v : list nat) : state := mkState (ts s) (fin s) (ex s) (pk s) (asy s) (initq s) (ptasks s) (parsers s) v (sendq s) (actq s) (taken s) (building s) (finishing s) (completing s) (numPending s) (numActive s) (initdone s) (closed s) (exited s) (failed s) (stopreq s) (cycreported s) (trace s) (nfwd s).
+Definition set_sendq (s : state) (v : list nat) : state := mkState (ts s) (fin s) (ex s) (pk s) (asy s) (initq s) (ptasks s) (parsers s) (semi s) v (actq s) (taken s) (building s) (finishing s) (completing s) (numPending s) (numActive s) (initdone s) (closed s) (exited s) (failed s) (stopreq s) (cycreported s) (trace s) (nfwd s).
+Definition set_actq (s : state) (v : list nat) : state := mkState (ts s) (fin s) (ex s) (pk s) (asy s) (initq s) (ptasks s) (parsers s) (semi s) (sendq s) v (taken s) (building s) (finishing s) (completing s) (numPending s) (numActive s) (initdone s) (closed s) (exited s) (failed s) (stopreq s) (cycreported s) (trace s) (nfwd s).
+Definition set_taken (s : state) (v : list nat) : state := mkState (ts s) (fin s) (ex s) (pk s) (asy s) (initq s) (ptasks s) (parsers s) (semi s) (sendq s) (actq s) v (building s) (finishing s) (completing s) (numPending s) (numActive s) (initdone s) (closed s) (exited s) (failed s) (stopreq s) (cycreported s) (trace s) (nfwd s).
+Definition set_building (s : state) (v : list nat) : state := mkState (ts s) (fin s) (ex s) (pk s) (asy s) (initq s) (ptasks s) (parsers s) (semi s) (sendq s) (actq s) (taken s) v (finishing s) (completing s) (numPending s) (numActive s) (initdone s) (closed s) (exited s) (failed s) (stopreq s) (cycreported s) (trace s) (nfwd s).
+Definition set_finishing (s : state) (v : list nat) : state := mkState (ts s) (fin s) (ex s) (pk s) (asy s) (initq s) (ptasks s) (parsers s) (semi s) (sendq s) (actq s) (taken s) (building s) v (completing s) (numPending s) (numActive s) (initdone s) (closed s) (exited s) (failed s) (stopreq s) (cycreported s) (trace s) (nfwd s).
+Definition set_completing (s : state) (v : list nat) : state := mkState (ts s) (fin s) (ex s) (pk s) (asy s) (initq s) (ptasks s) (parsers s) (semi s) (sendq s) (actq s) (taken s) (building s) (finishing s) v (numPending s) (numActive s) (initdone s) (closed s) (exited s) (failed s) (stopreq s) (cycreported s) (trace s) (nfwd s).
+Definition set_numPending (s : state) (v : Z) : state := mkState (ts s) (fin s) (ex s) (pk s) (asy s) (initq s) (ptasks s) (parsers s) (semi s) (sendq s) (actq s) (taken s) (building s) (finishing s) (completing s) v (numActive s) (initdone s) (closed s) (exited s) (failed s) (stopreq s) (cycreported s) (trace s) (nfwd s).
+Definition set_numActive (s : state) (v : Z) : state := mkState (ts s) (fin s) (ex s) (pk s) (asy s) (initq s) (ptasks s) (parsers s) (semi s) (sendq s) (actq s) (taken s) (building s) (finishing s) (completing s) (numPending s) v (initdone s) (closed s) (exited s) (failed s) (stopreq s) (cycreported s) (trace s) (nfwd s).
+Definition set_initdone (s : state) (v : bool) : state := mkState (ts s) (fin s) (ex s) (pk s) (asy s) (initq s) (ptasks s) (parsers s) (semi s) (sendq s) (actq s) (taken s) (building s) (finishing s) (completing s) (numPending s) (numActive s) v (closed s) (exited s) (failed s) (stopreq s) (cycreported s) (trace s) (nfwd s).
+Definition set_closed (s : state) (v : bool) : state := mkState (ts s) (fin s) (ex s) (pk s) (asy s) (initq s) (ptasks s) (parsers s) (semi s) (sendq s) (actq s) (taken s) (building s) (finishing s) (completing s) (numPending s) (numActive s) (initdone s) v (exited s) (failed s) (stopreq s) (cycreported s) (trace s) (nfwd s).
+Definition set_exited (s : state) (v : bool) : state := mkState (ts s) (fin s) (ex s) (pk s) (asy s) (initq s) (ptasks s) (parsers s) (semi s) (sendq s) (actq s) (taken s) (building s) (finishing s) (completing s) (numPending s) (numActive s) (initdone s) (closed s) v (failed s) (stopreq s) (cycreported s) (trace s) (nfwd s).
+Definition set_failed (s : state) (v : bool) : state := mkState (ts s) (fin s) (ex s) (pk s) (asy s) (initq s) (ptasks s) (parsers s) (semi s) (sendq s) (actq s) (taken s) (building s) (finishing s) (completing s) (numPending s) (numActive s) (initdone s) (closed s) (exited s) v (stopreq s) (cycreported s) (trace s) (nfwd s).
+Definition set_stopreq (s : state) (v : bool) : state := mkState (ts s) (fin s) (ex s) (pk s) (asy s) (initq s) (ptasks s) (parsers s) (semi s) (sendq s) (actq s) (taken s) (building s) (finishing s) (completing s) (numPending s) (numActive s) (initdone s) (closed s) (exited s) (failed s) v (cycreported s) (trace s) (nfwd s).
+Definition set_cycreported (s : state) (v : bool) : state := mkState (ts s) (fin s) (ex s) (pk s) (asy s) (initq s) (ptasks s) (parsers s) (semi s) (sendq s) (actq s) (taken s) (building s) (finishing s) (completing s) (numPending s) (numActive s) (initdone s) (closed s) (exited s) (failed s) (stopreq s) v (trace s) (nfwd s).
+Definition set_trace (s : state) (v : list obs) : state := mkState (ts s) (fin s) (ex s) (pk s) (asy s) (initq s) (ptasks s) (parsers s) (semi s) (sendq s) (actq s) (taken s) (building s) (finishing s) (completing s) (numPending s) (numActive s) (initdone s) (closed s) (exited s) (failed s) (stopreq s) (cycreported s) v (nfwd s).
+Definition set_nfwd (s : state) (v : nat) : state := mkState (ts s) (fin s) (ex s) (pk s) (asy s) (initq s) (ptasks s) (parsers s) (semi s) (sendq s) (actq s) (taken s) (building s) (finishing s) (completing s) (numPending s) (numActive s) (initdone s) (closed s) (exited s) (failed s) (stopreq s) (cycreported s) (trace s) v.
 
 Definition upd {A} (f : nat -> A) (k : nat) (v : A) : nat -> A := fun x => if Nat.eqb x k then v else f x.
 Definition mem (t : nat) (l : list nat) : bool := existsb (Nat.eqb t) l.
@@ -122,7 +124,7 @@ Definition init (g : graph) : state :=
   mkState (fun _ => Inactive) (fun _ => false) (fun _ => false) (fun _ => PNone) (fun _ => ANone)
           (g_req g) [] [] [] [] [] [] [] [] []
           1%Z 1%Z                                  (* NewBuildState: numPending = numActive = 1 *)
-          false false false false false false [].
+          false false false false false false [] 0.
 
 (* taskDone: if atomic.AddInt64(&numPending, -1) <= 0 { state.Stop() } *)
 Definition task_done (s : state) : state :=
@@ -204,6 +206,7 @@ Inductive label :=
 | LBuildFail (t : nat)               (* LogBuildError(TargetBuildFailed); SetState(Failed) *)
 | LFinishBuild (t : nat)             (* target.FinishBuild() *)
 | LTaskDone (t : nat)                (* completeAction: limiter released; state.TaskDone() *)
+| LForward                           (* forwardResults moves the oldest result from internalResults to the results channel *)
 | LStop                              (* the output monitor calls state.Stop() *)
 | LTimerCycleCheck (c : list nat)    (* 5 s without a result and no active target: Check() found the cycle c *)
 | LExitRun.                          (* both range loops ended and wg.Wait() returned *)
@@ -254,6 +257,7 @@ Definition enabled (g : graph) (s : state) (l : label) : bool :=
   | LBuildFail t => lt_n g t && mem t (building s)
   | LFinishBuild t => lt_n g t && mem t (finishing s)
   | LTaskDone t => lt_n g t && mem t (completing s)
+  | LForward => Nat.ltb (nfwd s) (length (trace s))
   | LStop => stopreq s && negb (closed s)
   | LTimerCycleCheck c =>
       is_nil (building s) && negb (cycreported s) && is_cycle g s c
@@ -368,12 +372,18 @@ Definition apply (g : graph) (s : state) (l : label) : state :=
       let s := set_finishing s (remove1 t (finishing s)) in
       set_fin (set_completing s (t :: completing s)) (upd (fin s) t true)
   | LTaskDone t => task_done (set_completing s (remove1 t (completing s)))
+  | LForward => set_nfwd s (S (nfwd s))
   | LStop => set_closed s true
   | LTimerCycleCheck c =>
       let s := async_error g s (hd 0 c) in      (* LogBuildError(cycle[0], TargetBuildFailed); state.Stop() *)
       set_cycreported s true
   | LExitRun => set_exited s true
   end.
+
+(* what has reached the results channel (MonitorState, --trace_file), newest first: the oldest nfwd logged results.
+   LExitRun is followed by CloseResults: results still in internalResults are dropped (forwardResults' send panics on
+   the closed channel and the panic is swallowed). *)
+Definition reported (s : state) : list obs := skipn (length (trace s) - nfwd s) (trace s).
 
 Fixpoint run (g : graph) (s : state) (ls : list label) : option state :=
   match ls with
@@ -402,15 +412,21 @@ Definition normalize (g : graph) (s : state) : state :=
   let s := set_pk s (tabulate n (pk s) PNone) in
   set_asy s (tabulate n (asy s) ANone).
 
-(* steps taken eagerly: everything that produces no trace event and is not one of send/take/stop/timer/exit/mark-semi *)
-Definition eager (g : graph) (s : state) (l : label) : bool :=
+(* steps taken eagerly: everything that produces no trace event and is not one of send/take/stop/timer/exit/mark-semi.
+   Which parse task gets to parse a package whose BUILD file fails is not determined by the trace (only that label is
+   activated while the file is evaluated); plz names it in its error output, the harness passes it as a hint.
+   queueTarget(d) for an undeclared d either finds d's package parsed ("Target d doesn't exist", an OErr d event) or not
+   yet (a parse task is added): `late` lists the labels for which the first was observed; their queue step waits for
+   the package, all other queue steps are taken before any further package is claimed. *)
+Definition eager (g : graph) (hints late : list nat) (s : state) (l : label) : bool :=
   match l with
-  | LInitRequest | LInitDone | LParseActivate _ | LParseClaim _ | LAddTarget _ _ | LParseOk _ | LParseFail _
+  | LParseClaim l => g_pkg_ok g (g_pkg g l) || mem l hints
+  | LForward | LInitRequest | LInitDone | LParseActivate _ | LAddTarget _ _ | LParseOk _ | LParseFail _
   | LSemiDone _ | LAsyncBeginResolve _ | LAsyncResolveDep _ _ | LWaitDep _ _ | LActivatePending _ | LAsyncDone _
   | LFinishBuild _ | LTaskDone _ => true
   | LAsyncQueueDep t =>
       match asy s t with
-      | AQueue (d :: _) => ex s d || negb (pst_eqb (pk s (g_pkg g d)) PParsed)
+      | AQueue (d :: _) => ex s d || (negb (pst_eqb (pk s (g_pkg g d)) PParsed) && negb (mem d late))
       | _ => false
       end
   | LAsyncBeginWait t => match asy s t with AResolve [] false => true | _ => false end
@@ -419,25 +435,32 @@ Definition eager (g : graph) (s : state) (l : label) : bool :=
 
 Definition candidates (g : graph) : list label :=
   let ids := seq 0 (g_n g) in
-  [LInitRequest; LInitDone] ++
+  [LForward; LInitRequest; LInitDone] ++
   flat_map (fun t =>
-    [LParseActivate t; LParseClaim t; LParseFail t] ++ map (LAddTarget t) ids ++ [LParseOk t; LSemiDone t;
+    [LParseActivate t] ++ map (LAddTarget t) ids ++ [LParseFail t; LParseOk t; LSemiDone t;
      LAsyncQueueDep t; LAsyncBeginResolve t] ++ map (LAsyncResolveDep t) (g_deps g t) ++ [LAsyncBeginWait t] ++
     map (LWaitDep t) (g_deps g t) ++ [LActivatePending t; LAsyncDone t; LFinishBuild t; LTaskDone t]) ids.
 
+Definition claims (g : graph) : list label := map LParseClaim (seq 0 (g_n g)).
+
 (* one pass over the candidates, taking every eager step that is enabled when its turn comes *)
-Fixpoint pass (g : graph) (cs : list label) (s : state) (acc : list label) (n : nat) : state * list label * nat :=
+Fixpoint pass (g : graph) (hints late : list nat) (cs : list label) (s : state) (acc : list label) (n : nat) : state * list label * nat :=
   match cs with
   | [] => (s, acc, n)
-  | l :: r => if eager g s l && enabled g s l then pass g r (apply g s l) (l :: acc) (S n) else pass g r s acc n
+  | l :: r => if eager g hints late s l && enabled g s l then pass g hints late r (apply g s l) (l :: acc) (S n) else pass g hints late r s acc n
   end.
-Fixpoint saturate (g : graph) (fuel : nat) (s : state) (acc : list label) : state * list label :=
+Fixpoint saturate (g : graph) (hints late : list nat) (fuel : nat) (s : state) (acc : list label) : state * list label :=
   match fuel with
   | O => (s, acc)
   | S f =>
-      match pass g (candidates g) s acc 0 with
-      | (s', acc', O) => (s', acc')
-      | (s', acc', S _) => saturate g f (normalize g s') acc'
+      match pass g hints late (candidates g) s acc 0 with
+      | (s', acc', S _) => saturate g hints late f (normalize g s') acc'
+      | (s', acc', O) =>
+          (* nothing else to do: let one parse task claim its package *)
+          match find (fun l => eager g hints late s' l && enabled g s' l) (claims g) with
+          | Some l => saturate g hints late f (normalize g (apply g s' l)) (l :: acc')
+          | None => (s', acc')
+          end
       end
   end.
 
@@ -456,7 +479,13 @@ Fixpoint rotate_to (l : nat) (fuel : nat) (c : list nat) : list nat :=
   | _, _ => c
   end.
 
-Definition labels_for (g : graph) (s : state) (e : ev) : list label :=
+Definition starts_later (t : nat) (r : list ev) : bool :=
+  existsb (fun e => match e with EvStart u => Nat.eqb t u | _ => false end) r.
+(* a task that is started later must have reached the channel before it is closed *)
+Definition sends_before_close (g : graph) (s : state) (r : list ev) : list label :=
+  map LSendTask (filter (fun t => mem t (sendq s) && starts_later t r) (seq 0 (g_n g))).
+
+Definition labels_for (g : graph) (s : state) (e : ev) (r : list ev) : list label :=
   match e with
   | EvStart t => (if mem t (sendq s) then [LSendTask t] else []) ++
                  (if mem t (sendq s) || mem t (actq s) then [LWorkerTake t] else []) ++ [LBuildStart t]
@@ -464,29 +493,30 @@ Definition labels_for (g : graph) (s : state) (e : ev) : list label :=
   | EvEnd t RFailed => [LBuildFail t]
   | EvEnd t RDepFailed => match asy s t with AWait (d :: _) => [LDepFailed t d] | _ => [LDepFailed t 0] end
   | EvErr l [] =>
+      sends_before_close g s r ++
       match find (fun t => match asy s t with AQueue (d :: _) => Nat.eqb d l | _ => false end) (seq 0 (g_n g)) with
       | Some t => [LAsyncQueueDep t]
       | None => [LAsyncBeginWait l]
       end
-  | EvErr l c => [LTimerCycleCheck (rotate_to l (length c) c)]
+  | EvErr l c => sends_before_close g s r ++ [LTimerCycleCheck (rotate_to l (length c) c)]
   end.
 
-Definition fuel_of (g : graph) : nat := 4 * g_n g + 8.
+Definition fuel_of (g : graph) : nat := 6 * g_n g + 8.
 
-Fixpoint complete (g : graph) (s : state) (acc : list label) (es : list ev) : option (state * list label) :=
+Fixpoint complete (g : graph) (hints late : list nat) (s : state) (acc : list label) (es : list ev) : option (state * list label) :=
   match es with
   | [] => Some (s, acc)
   | e :: r =>
-      let '(s1, acc1) := saturate g (fuel_of g) s acc in
-      match take_all g s1 acc1 (labels_for g s1 e) with
-      | Some (s2, acc2) => complete g s2 acc2 r
+      let '(s1, acc1) := saturate g hints late (fuel_of g) s acc in
+      match take_all g s1 acc1 (labels_for g s1 e r) with
+      | Some (s2, acc2) => complete g hints late s2 acc2 r
       | None => None
       end
   end.
 
 (* the end of the invocation: pending Stop, the senders that find the channel closed, then wg.Wait() returns *)
-Definition finish (g : graph) (s : state) (acc : list label) : option (state * list label) :=
-  let '(s1, acc1) := saturate g (fuel_of g) s acc in
+Definition finish (g : graph) (hints late : list nat) (s : state) (acc : list label) : option (state * list label) :=
+  let '(s1, acc1) := saturate g hints late (fuel_of g) s acc in
   let stop := if stopreq s1 && negb (closed s1) then [LStop] else [] in
   match take_all g s1 acc1 stop with
   | Some (s2, acc2) =>
@@ -518,19 +548,22 @@ Fixpoint obs_match_all (os : list obs) (es : list ev) : bool :=
   end.
 
 (* the labels of an accepting run for the observed events, if the search finds one *)
-Definition witness (g : graph) (es : list ev) : option (list label) :=
-  match complete g (init g) [] es with
-  | Some (s, acc) => match finish g s acc with Some (_, acc') => Some (rev acc') | None => None end
+Definition late_of (g : graph) (es : list ev) : list nat :=
+  flat_map (fun e => match e with EvErr l [] => if g_decl g l then [] else [l] | _ => [] end) es.
+Definition witness (g : graph) (hints : list nat) (es : list ev) : option (list label) :=
+  let late := late_of g es in
+  match complete g hints late (init g) [] es with
+  | Some (s, acc) => match finish g hints late s acc with Some (_, acc') => Some (rev acc') | None => None end
   | None => None
   end.
 
-(* accepted: a run of the LTS from the initial state, ending with LExitRun, whose trace is exactly the observed event
+(* accepted: a run of the LTS from the initial state, ending with LExitRun, whose reported stream is exactly the observed event
    sequence and whose exit status (non-zero iff progress.failed) is the observed one *)
-Definition accepts (g : graph) (es : list ev) (exit_nonzero : bool) : bool :=
-  match witness g es with
+Definition accepts (g : graph) (hints : list nat) (es : list ev) (exit_nonzero : bool) : bool :=
+  match witness g hints es with
   | Some ls =>
       match run g (init g) ls with
-      | Some s => exited s && obs_match_all (rev (trace s)) es && Bool.eqb (failed s) exit_nonzero
+      | Some s => exited s && obs_match_all (rev (reported s)) es && Bool.eqb (failed s) exit_nonzero
       | None => false
       end
   | None => false
@@ -538,11 +571,11 @@ Definition accepts (g : graph) (es : list ev) (exit_nonzero : bool) : bool :=
 
 (* ---- correspondence cases ---- *)
 Inductive case :=
-| CRun (g : graph) (events : list ev) (exit_nonzero : bool).
+| CRun (g : graph) (hints : list nat) (events : list ev) (exit_nonzero : bool).
 
 Definition check (c : case) : bool :=
   match c with
-  | CRun g es x => accepts g es x
+  | CRun g h es x => accepts g h es x
   end.
 
 (* graphs as the harness prints them *)
